@@ -439,7 +439,7 @@ def nontrivial(c):
 
 def main(run, args):
     import checklib
-    n = 2500 if run.tier == "quick" else 50000
+    n = 1500 if run.tier == "quick" else 40000
     if args.cases:
         n = args.cases
     return checklib.standard(run, ID, THEOREMS, imports(), "proto", gen_cases, to_coq, n, nontrivial=nontrivial,
